@@ -15,7 +15,9 @@ def src(nodes):
     out = []
     for n in nodes:
         if n[0] == "prov":
-            out.append("{% provide '" + n[1] + "' v='" + n[2] + "' %}" + src(n[3]) + "{% endprovide %}")
+            # two fields; their ORDER in the tag alternates with the value (the payload must bind each value to its own name)
+            kw = ("v='" + n[2] + "' w='W" + n[2] + "'") if n[2].endswith("1") else ("w='W" + n[2] + "' v='" + n[2] + "'")
+            out.append("{% provide '" + n[1] + "' " + kw + " %}" + src(n[3]) + "{% endprovide %}")
         elif n[0] == "use":
             out.append("{% component 'use_" + n[1] + "' / %}")
         elif n[0] == "wrap":
@@ -35,7 +37,7 @@ def interp(nodes, env):
         elif n[0] == "use":
             if n[1] not in env:
                 raise Missing(n[1])
-            out.append("[" + n[1] + "=" + env[n[1]] + "]")
+            out.append("[" + n[1] + "=" + env[n[1]] + "/W" + env[n[1]] + "]")
         elif n[0] == "wrap":
             # the wrapper's own template shows the nearest `k` (or '-' when there is none: it injects with a default)
             out.append("<W " + env.get("k", "-") + ">" + interp(n[1], env) + "</W>")
@@ -68,7 +70,8 @@ def worker(job):
     import django_components.perfutil.provide as pv
     for key in ("k", "j"):
         def gcd(self, _key=key):
-            return {"val": self.inject(_key).v}
+            got = self.inject(_key)
+            return {"val": got.v + "/" + got.w}
         registry.register("use_" + key, type("Use" + key, (Component,), {"template": "[" + key + "={{ val }}]", "get_context_data": gcd}))
 
     NOTHING = object()
